@@ -164,14 +164,14 @@ theorem C04_history (n m m' : Nat) (t t' : PT α) (h : PT.Shaped 2 n m t) (hs : 
 
 /-! ### the remaining constructors: every tree a history can start from is shaped -/
 
-theorem shaped_dec_none (i n m : Nat) (a : Aff α) (l1 : PT α) (hwf : a.WF) (hin : a.indim = n) (hout : a.outdim = 1)
+theorem shapedAny_dec_none (i n m : Nat) (a : Aff α) (l1 : PT α) (hwf : a.WF) (hin : a.indim = n) (hout : a.outdim = 1)
     (h1 : PT.Shaped 2 n m l1) : PT.Shaped 2 n m (Sch.dec i a none (some l1)) := by
   simp [Sch.dec, PT.Shaped, PKids.Shaped, IKids.allNone, IKids.length, Content.new, hwf, hin, hout, h1]
 
 /-- a well-formed one-row predicate over `n` inputs -/
 def OneRowN (n : Nat) (r : Aff α) : Prop := r.WF ∧ r.indim = n ∧ r.outdim = 1
 
-theorem shaped_chainNode (n m : Nat) (ff : Option (Aff α)) (f1 : Aff α)
+theorem shapedAny_chainNode (n m : Nat) (ff : Option (Aff α)) (f1 : Aff α)
     (hff : ∀ a, ff = some a → a.WF ∧ a.indim = n ∧ a.outdim = m) (hf1 : f1.WF ∧ f1.indim = n ∧ f1.outdim = m)
     (idx : Nat) (row : Aff α) (rows : List (Aff α)) (c : Nat) (hrow : OneRowN n row) (hrows : ∀ r ∈ rows, OneRowN n r) :
     PT.Shaped 2 n m (Sch.chainNode ff f1 idx row rows c) := by
@@ -180,7 +180,7 @@ theorem shaped_chainNode (n m : Nat) (ff : Option (Aff α)) (f1 : Aff α)
     unfold Sch.chainNode
     cases ff with
     | none =>
-      refine shaped_dec_none idx n m row _ hrow.1 hrow.2.1 hrow.2.2 ?_
+      refine shapedAny_dec_none idx n m row _ hrow.1 hrow.2.1 hrow.2.2 ?_
       have := shaped_leaf c n f1 hf1.1 hf1.2.1
       rwa [hf1.2.2] at this
     | some a =>
@@ -194,7 +194,7 @@ theorem shaped_chainNode (n m : Nat) (ff : Option (Aff α)) (f1 : Aff α)
     unfold Sch.chainNode
     cases ff with
     | none =>
-      exact shaped_dec_none idx n m row _ hrow.1 hrow.2.1 hrow.2.2
+      exact shapedAny_dec_none idx n m row _ hrow.1 hrow.2.1 hrow.2.2
         (ih c r (c+1) (hrows r (by simp)) (fun r' hr' => hrows r' (by simp [hr'])))
     | some a =>
       obtain ⟨h1, h2, h3⟩ := hff a rfl
@@ -204,23 +204,23 @@ theorem shaped_chainNode (n m : Nat) (ff : Option (Aff α)) (f1 : Aff α)
       rwa [h3] at this
 
 
-theorem oneRow_subtraction (n l r : Nat) : OneRowN n (Aff.subtraction n l r : Aff α) := by
+theorem oneRowN_subtraction (n l r : Nat) : OneRowN n (Aff.subtraction n l r : Aff α) := by
   refine ⟨⟨?_, rfl⟩, rfl, rfl⟩
   intro row hrow
   simp only [Aff.subtraction, List.mem_singleton] at hrow
   subst hrow; simp [Aff.subtraction]
 
-theorem oneRow_axisPred (n r : Nat) (c b : α) : OneRowN n (Sch.axisPred n r c b : Aff α) :=
+theorem oneRowN_axisPred (n r : Nat) (c b : α) : OneRowN n (Sch.axisPred n r c b : Aff α) :=
   ⟨wf_axisPred n r c b, rfl, rfl⟩
 
-theorem const_ok (n : Nat) (v : α) : (Aff.constant n v : Aff α).WF ∧ (Aff.constant n v : Aff α).indim = n ∧
+theorem constAff_ok (n : Nat) (v : α) : (Aff.constant n v : Aff α).WF ∧ (Aff.constant n v : Aff α).indim = n ∧
     (Aff.constant n v : Aff α).outdim = 1 := by
   refine ⟨⟨?_, rfl⟩, rfl, rfl⟩
   intro row hrow
   simp only [Aff.constant, List.mem_singleton] at hrow
   subst hrow; simp [zeros, Aff.constant]
 
-theorem oneRow_row (p : Aff α) (hp : p.WF) (i : Nat) (hi : i < p.mat.length) : OneRowN p.indim (p.row i) := by
+theorem oneRowN_row (p : Aff α) (hp : p.WF) (i : Nat) (hi : i < p.mat.length) : OneRowN p.indim (p.row i) := by
   refine ⟨⟨?_, rfl⟩, rfl, rfl⟩
   intro row hrow
   simp only [Aff.row, List.mem_singleton] at hrow
@@ -237,54 +237,54 @@ theorem C04_ctor_from_poly (p fT : Aff α) (fF : Option (Aff α)) (hp : p.WF) (h
     intro r hr
     simp only [List.mem_map, List.mem_range] at hr
     obtain ⟨i, hi, rfl⟩ := hr
-    exact oneRow_row p hp i hi
+    exact oneRowN_row p hp i hi
   split
   · exact shaped_leaf 0 p.indim fT hT hTin
   · rename_i r rs heq
     rw [heq] at hall
-    exact shaped_chainNode p.indim fT.outdim fF fT hF ⟨hT, hTin, rfl⟩ 0 r rs 1 (hall r (by simp))
+    exact shapedAny_chainNode p.indim fT.outdim fF fT hF ⟨hT, hTin, rfl⟩ 0 r rs 1 (hall r (by simp))
       (fun r' hr' => hall r' (by simp [hr']))
 
-theorem shaped_indicatorChain (n : Nat) (rows : List (Aff α)) (hall : ∀ r ∈ rows, OneRowN n r) :
+theorem shapedAny_indicatorChain (n : Nat) (rows : List (Aff α)) (hall : ∀ r ∈ rows, OneRowN n r) :
     PT.Shaped 2 n 1 (match rows with
       | [] => Sch.leaf 0 (Aff.constant n 1)
       | r :: rs => Sch.chainNode (some (Aff.constant n (0 : α))) (Aff.constant n 1) 0 r rs 1) := by
   cases rows with
   | nil =>
-    have := shaped_leaf 0 n (Aff.constant n 1 : Aff α) (const_ok n 1).1 rfl
+    have := shaped_leaf 0 n (Aff.constant n 1 : Aff α) (constAff_ok n 1).1 rfl
     simpa [Aff.constant, Aff.outdim] using this
   | cons r rs =>
-    exact shaped_chainNode n 1 _ _ (fun a ha => by cases ha; exact const_ok n 0) (const_ok n 1) 0 r rs 1 (hall r (by simp))
+    exact shapedAny_chainNode n 1 _ _ (fun a ha => by cases ha; exact constAff_ok n 0) (constAff_ok n 1) 0 r rs 1 (hall r (by simp))
       (fun r' hr' => hall r' (by simp [hr']))
 
 /-- `class_characterization` -/
 theorem C04_ctor_class_char (n c : Nat) : PT.Shaped 2 n 1 (Sch.classChar n c : PT α) := by
   unfold Sch.classChar
-  apply shaped_indicatorChain
+  apply shapedAny_indicatorChain
   intro r hr
   simp only [List.mem_map] at hr
   obtain ⟨i, _, rfl⟩ := hr
-  exact oneRow_subtraction n i c
+  exact oneRowN_subtraction n i c
 
 /-- `inf_norm` -/
 theorem C04_ctor_inf_norm (n : Nat) (lo hi : Option α) : PT.Shaped 2 n 1 (Sch.infNorm n lo hi : PT α) := by
   unfold Sch.infNorm
   simp only
-  apply shaped_indicatorChain
+  apply shapedAny_indicatorChain
   intro r hr
   rcases List.mem_append.mp hr with h | h
   · cases lo with
     | none => simp at h
-    | some l => obtain ⟨i, _, rfl⟩ := List.mem_map.mp h; exact oneRow_axisPred _ _ _ _
+    | some l => obtain ⟨i, _, rfl⟩ := List.mem_map.mp h; exact oneRowN_axisPred _ _ _ _
   · cases hi with
     | none => simp at h
-    | some l => obtain ⟨i, _, rfl⟩ := List.mem_map.mp h; exact oneRow_axisPred _ _ _ _
+    | some l => obtain ⟨i, _, rfl⟩ := List.mem_map.mp h; exact oneRowN_axisPred _ _ _ _
 
-theorem shaped_argmaxNode (n : Nat) (ofNat : Nat → α) (fuel idx : Nat) (aff : Aff α) (mf mt c : Nat)
+theorem shapedAny_argmaxNode (n : Nat) (ofNat : Nat → α) (fuel idx : Nat) (aff : Aff α) (mf mt c : Nat)
     (haff : OneRowN n aff) : PT.Shaped 2 n 1 (Sch.argmaxNode n ofNat fuel idx aff mf mt c).1 := by
   have hleaf : ∀ i k, PT.Shaped 2 n 1 (Sch.leaf i (Aff.constant n (ofNat k) : Aff α)) := by
     intro i k
-    have := shaped_leaf i n (Aff.constant n (ofNat k) : Aff α) (const_ok n _).1 rfl
+    have := shaped_leaf i n (Aff.constant n (ofNat k) : Aff α) (constAff_ok n _).1 rfl
     simpa [Aff.constant, Aff.outdim] using this
   induction fuel generalizing idx aff mf mt c with
   | zero =>
@@ -294,12 +294,12 @@ theorem shaped_argmaxNode (n : Nat) (ofNat : Nat → α) (fuel idx : Nat) (aff :
     unfold Sch.argmaxNode
     split
     · exact shaped_dec idx n 1 aff _ _ haff.1 haff.2.1 haff.2.2
-        (ih c _ (mf+1) mf _ (oneRow_subtraction n _ _)) (ih (c+1) _ (mf+1) mt _ (oneRow_subtraction n _ _))
+        (ih c _ (mf+1) mf _ (oneRowN_subtraction n _ _)) (ih (c+1) _ (mf+1) mt _ (oneRowN_subtraction n _ _))
     · exact shaped_dec idx n 1 aff _ _ haff.1 haff.2.1 haff.2.2 (hleaf _ _) (hleaf _ _)
 
 /-- `argmax` -/
 theorem C04_ctor_argmax (n : Nat) (ofNat : Nat → α) : PT.Shaped 2 n 1 (Sch.argmax n ofNat : PT α) :=
-  shaped_argmaxNode n ofNat n 0 _ 1 0 1 (oneRow_subtraction n 1 0)
+  shapedAny_argmaxNode n ofNat n 0 _ 1 0 1 (oneRowN_subtraction n 1 0)
 
 /-- the per-neuron activations -/
 theorem C04_ctor_activations (n r : Nat) (a lo hi lam three sixth half thr v : α) :
